@@ -311,8 +311,11 @@ def run_property(prop, tier):
         "wall_s": round(wall, 2),
         "violations": violations,
     }
-    os.makedirs(os.path.join(VERIF, "evidence"), exist_ok=True)
-    json.dump(evidence, open(os.path.join(VERIF, "evidence", f"{prop}.json"), "w"), indent=1)
+    # evidence of a run against a scratch copy (self-test, seeded changes) never replaces the evidence of /repo
+    evdir = os.path.join(VERIF, "evidence") if os.path.realpath(REPO) == "/repo" else os.path.join(
+        os.environ.get("TMPDIR", "/tmp"), "pyvc_scratch_evidence")
+    os.makedirs(evdir, exist_ok=True)
+    json.dump(evidence, open(os.path.join(evdir, f"{prop}.json"), "w"), indent=1)
     for ln in lines:
         print(ln)
     for a, b in undecided:
